@@ -53,6 +53,8 @@ type exchangeOut struct {
 	Binds   []fedcat.Binding `json:"binds"`
 	Data    *fedcat.Val      `json:"data,omitempty"`
 	HasErr  bool             `json:"hasErr"`
+	Seq0    int64            `json:"seq0"`
+	Arrival int              `json:"arrival"` // arrival order at the simulators within this execution
 }
 
 type resultOut struct {
@@ -133,8 +135,8 @@ func (g *gatewayEnv) run(c *caseIn, u int) (out resultOut) {
 		if p := recover(); p != nil {
 			out.Panic = fmt.Sprintf("%v\n%s", p, debug.Stack())
 		}
-		for _, x := range g.router.Take() {
-			xo := exchangeOut{Sg: x.Sg, SgName: x.SgName, Query: x.Query, Vars: x.Vars, Resp: x.Resp, Invalid: x.Invalid, Doc: x.Doc, Binds: x.Bindings, HasErr: x.HasErr}
+		for n, x := range g.router.Take() {
+			xo := exchangeOut{Sg: x.Sg, SgName: x.SgName, Query: x.Query, Vars: x.Vars, Resp: x.Resp, Invalid: x.Invalid, Doc: x.Doc, Binds: x.Bindings, HasErr: x.HasErr, Seq0: x.Seq0, Arrival: n}
 			if xo.Binds == nil {
 				xo.Binds = []fedcat.Binding{}
 			}
